@@ -1,6 +1,6 @@
 """C03 — with queues on, destination branches only advance to CI-validated commits: tie and oracle."""
 from . import syscheck
-from .histories import gen_config, gen_history
+from .histories import gen_config, gen_history, no_octopus_of
 
 PID = 'C03'
 OWN_STREAM = True
@@ -49,9 +49,17 @@ def oracle_validated(run, ev, kind, info, before, after, host_before, host_after
         if name in before and before[name] != sha:
             st = run.w.build_of(sha)
             if st != 'SUCCESSFUL':
-                bad.append({'key': 'unvalidated-commit',
-                            'what': '%s advanced to %s whose build is %s (job %s -> %s)'
-                                    % (name, sha[:8], st, k, info.get('status')),
+                key, extra = 'unvalidated-commit', ''
+                # fingerprint of one known circumstance (the verdict above does not depend on it): a direct merge
+                # (queue skipped) under `no_octopus` puts the later targets on merge commits that the job itself
+                # creates (`consecutive_merge`), which no build can have been reported on
+                if info.get('status') == 'SuccessMessage' and sha not in before.values() and (
+                        run.cfg.no_octopus or any(no_octopus_of(run, p) for p in run.prs.values())):
+                    key = 'unvalidated-commit/no-octopus-direct-merge'
+                    extra = '; a merge commit created by this direct merge under no_octopus'
+                bad.append({'key': key,
+                            'what': '%s advanced to %s whose build is %s (job %s -> %s)%s'
+                                    % (name, sha[:8], st, k, info.get('status'), extra),
                             'observation': {'branch': name, 'status': st, 'job': info.get('status')}})
     return bad
 
